@@ -321,10 +321,13 @@ def main():
     # decision
     known = load_known()
     new_fail = []
+    printed = set()
     for f in failing:
         hit = [k for k in known if k[0] == pid and k[1] == f['key']]
         if hit:
-            print(f"KNOWN-FINDING: property={pid} {hit[0][2]} [key={f['key']}]")
+            if f['key'] not in printed:
+                printed.add(f['key'])
+                print(f"KNOWN-FINDING: property={pid} {hit[0][2]} [key={f['key']}]")
         else:
             new_fail.append(f)
     violations = 0
